@@ -54,6 +54,17 @@ def variants(d, rng: random.Random):
                 if c != base_codes[i]:
                     out.append((f"key{i+1}", corpus.build_payload(d, {**base_codes, i: c})))
                     break
+    # a key field that is "not available" (all ones) is a key value like any other: it must neither be skipped nor
+    # wipe the other key parts or the definition's id
+    for i, f in enumerate(d["fields"]):
+        if f["pk"] and i in base_codes and f["match"] == -1 and f["kind"] == "num" and f["len"] >= 2:
+            na = (1 << f["len"]) - 1 if not f["twos"] or f["len"] < 4 else (1 << (f["len"] - 1)) - 1
+            out.append((f"na{i+1}", corpus.build_payload(d, {**base_codes, i: na})))
+            for j, g in enumerate(d["fields"]):
+                if j != i and g["pk"] and j in base_codes and g["match"] == -1:
+                    c = corpus.neutral_code(g, rng)
+                    if c != base_codes[j]:
+                        out.append((f"na{i+1}+key{j+1}", corpus.build_payload(d, {**base_codes, i: na, j: c})))
     # two key fields: pairs of key values whose decimal texts glue to the same string (1|11 and 11|1, 2|20 and 22|0):
     # a hash over a separator-less concatenation cannot tell them apart
     keys = [i for i, f in enumerate(d["fields"]) if f["pk"] and i in base_codes and f["match"] == -1 and f["len"] >= 5
@@ -125,6 +136,7 @@ def bind(chk: Check, tier: str, seed: int):
 def _bind(chk, tier, seed, wd, db, rng, dec, dec2, off, late):
     groups, meta, lines, line_ref = [], [], [], []
     n_late = [0]
+    cross: list = []          # one observation per definition with a not-available key: hashes of different definitions differ
     defs = [d for d in db["defs"] if d["decodable"] and d["static"]]
     keyed = [d for d in defs if any(f["pk"] for f in d["fields"])]
     plain = [d for d in defs if not any(f["pk"] for f in d["fields"])]
@@ -132,11 +144,14 @@ def _bind(chk, tier, seed, wd, db, rng, dec, dec2, off, late):
     chosen.sort(key=lambda d: d["idx"])          # database order: siblings of one PGN follow each other
     for d in chosen:
         obs = []
+        obs_tagged, obs_tags = [], []
         for tag, payload in variants(d, rng):
             o = decode_hash(dec, d, payload)
             if o is None or o["id"] != d["id"]:
                 continue
             obs.append(o)
+            obs_tagged.append(o)
+            obs_tags.append((tag, payload))
             if tag == "base":
                 for extra, kw in (("addr", dict(src=9, dst=35, prio=6)),):
                     o2 = decode_hash(dec, d, payload, **kw)
@@ -159,6 +174,14 @@ def _bind(chk, tier, seed, wd, db, rng, dec, dec2, off, late):
         if len(obs) >= 2:
             groups.append({"id": d["id"], "obs": obs})
             meta.append(d["id"])
+        cross.extend([o for o, (tag, _) in zip(obs_tagged, obs_tags) if tag.startswith("na") and "+" not in tag][:1])
+    if len(cross) >= 2:
+        for k in range(0, len(cross), 40):          # (groups of 40: the verdict compares all pairs)
+            part = cross[k:k + 40]           # (one observation per definition: pairs always differ in id)
+            if len(part) < 2:
+                continue
+            groups.append({"id": part[0]["id"], "obs": part})
+            meta.append("(definitions with a not-available key)")
     # a second process with another hash seed decodes the same payloads (in the same order)
     p = subprocess.run([sys.executable, "-c", HELPER % (str(REPO), CLAIM)], input=json.dumps(lines), capture_output=True, text=True,
                        env=dict(os.environ, PYTHONHASHSEED="4711"))
@@ -172,7 +195,8 @@ def _bind(chk, tier, seed, wd, db, rng, dec, dec2, off, late):
             g = groups[i]
             chk.violation(f"{v['c']}/{meta[i]}", f"{meta[i]}: {v['c']} among {len(g['obs'])} observations, e.g. "
                           f"{[(bytes(o['p']).hex(), o['hash'][:8]) for o in g['obs'][:4]]}", {"group": g})
-    nkey = sum(1 for g, m in zip(groups, meta) if any(f["pk"] for f in next(d for d in chosen if d["id"] == m)["fields"]))
+    by_chosen = {d["id"]: d for d in chosen}
+    nkey = sum(1 for g, m in zip(groups, meta) if m in by_chosen and any(f["pk"] for f in by_chosen[m]["fields"]))
     chk.gate(nkey >= (100 if tier != "selftest" else 100), f"only {nkey} definitions with key fields were observed")
     chk.gate(n_late[0] >= len(groups), f"only {n_late[0]} observations from the instance past its discovery window")
     chk.add(observations_after_discovery_window=n_late[0])
